@@ -30,6 +30,11 @@ def net_fn(kind, ctx=None, hidden=8):
         return lambda i, o: ResidualNet(i, o, hidden_features=hidden, context_features=ctx, num_blocks=1)
     if kind == 'conv':
         return lambda i, o: ConvResidualNet(i, o, hidden_channels=hidden, context_channels=ctx, num_blocks=1)
+    if kind == 'res-bn-do':
+        # non-default conditioner options: batch norm and dropout inside the residual blocks (both inert in evaluation mode)
+        return lambda i, o: ResidualNet(i, o, hidden_features=hidden, context_features=ctx, num_blocks=2, use_batch_norm=True, dropout_probability=0.3)
+    if kind == 'conv-bn-do':
+        return lambda i, o: ConvResidualNet(i, o, hidden_channels=hidden, context_channels=ctx, num_blocks=1, use_batch_norm=True, dropout_probability=0.3)
     if kind == 'plain':
         return lambda i, o: PlainNet(i, o, ctx)
     raise ValueError(kind)
@@ -142,6 +147,30 @@ def entries(level='quick'):
                                                                               apply_unconditional_transform=True, img_shape=[2, 2])),
                            [3, 2, 2], dom_fwd=None if tails else (0.0, 1.0), dom_inv=None if tails else (0.0, 1.0),
                            spline=_spl(fam, tails, 3, B), extra={'ckind': fam, 'mask': mask, 'img': True, 'uncond': True}))
+    # two features, the single identity feature goes through the unconditional transform (small enough for 2-D quadrature)
+    for fam, cls in (('rq', cps['rq']), ('quad', cps['quad'])):
+        E.append(Entry('%sCoupling/uncond2/tails' % fam, 'coupling',
+                       (lambda cls=cls: cls([1, 0], net_fn('res', None), num_bins=3, tails='linear', tail_bound=2.5, apply_unconditional_transform=True)),
+                       [2], spline=_spl(fam, 'linear', 3, 2.5), extra={'ckind': fam, 'mask': [1, 0], 'uncond': True}))
+    # conditioners with batch norm and dropout (evaluation mode: running statistics, no dropout)
+    E.append(Entry('AffineCoupling/mTIT/ctxNone/res-bn-do', 'coupling',
+                   (lambda: T.AffineCouplingTransform([1, 0, 1], net_fn('res-bn-do', None))),
+                   [3], extra={'ckind': 'affine', 'mask': [1, 0, 1], 'act': 'default'}))
+    E.append(Entry('rqCoupling/tails/K4/mTIT/ctx2/res-bn-do', 'coupling',
+                   (lambda: cps['rq']([1, 0, 1], net_fn('res-bn-do', 2), num_bins=4, tails='linear', tail_bound=3.0)),
+                   [3], ctx=2, spline=_spl('rq', 'linear', 4, 3.0), extra={'ckind': 'rq', 'mask': [1, 0, 1]}))
+    E.append(Entry('AffineCoupling/img/mTI/ctxNone/conv-bn-do', 'coupling',
+                   (lambda: T.AffineCouplingTransform([1, 0], net_fn('conv-bn-do', None, 4))),
+                   [2, 2, 3], extra={'ckind': 'affine', 'mask': [1, 0], 'act': 'default', 'img': True}))
+    # image coupling, identity block FIRST / in the middle
+    for mask in ([0, 0, 1, 1], [-1, 0.5, 2]):
+        tag = 'img/m%s/ctxNone' % ''.join('T' if m > 0 else 'I' for m in mask)
+        E.append(Entry('AffineCoupling/' + tag, 'coupling',
+                       (lambda mask=mask: T.AffineCouplingTransform(mask, net_fn('conv', None, 4))),
+                       [len(mask), 2, 3], extra={'ckind': 'affine', 'mask': mask, 'act': 'default', 'img': True}))
+        E.append(Entry('rqCoupling/tails/' + tag, 'coupling',
+                       (lambda mask=mask: cps['rq'](mask, net_fn('conv', None, 4), num_bins=3, tails='linear', tail_bound=2.0)),
+                       [len(mask), 2, 3], spline=_spl('rq', 'linear', 3, 2.0), extra={'ckind': 'rq', 'mask': mask, 'img': True}))
     # image coupling
     for mask in ([1, 0], [0, 1, 1]):
         for ctx in (None, 2) if full else (None,):
@@ -187,6 +216,17 @@ def entries(level='quick'):
                                        use_residual_blocks=resid)),
                                    [Fd], ctx=ctx, dom_fwd=None if tails else (0.0, 1.0), dom_inv=None if tails else (0.0, 1.0),
                                    spline=_spl('rq', tails, 4, B), extra={'akind': 'rq'}))
+    # MADE conditioners with batch norm and dropout (feed-forward and residual blocks)
+    for resid in (True, False):
+        tag = 'F3/ctxNone/%s+bn+do' % ('res' if resid else 'ff')
+        E.append(Entry('MaskedAffineAR/' + tag, 'ar',
+                       (lambda resid=resid: T.MaskedAffineAutoregressiveTransform(3, 6, num_blocks=1, use_residual_blocks=resid, use_batch_norm=True,
+                                                                                  dropout_probability=0.3)),
+                       [3], extra={'akind': 'araffine'}))
+        E.append(Entry('MaskedRQAR/tails/' + tag, 'ar',
+                       (lambda resid=resid: T.MaskedPiecewiseRationalQuadraticAutoregressiveTransform(
+                           3, 6, num_bins=4, num_blocks=1, tails='linear', tail_bound=3.0, use_residual_blocks=resid, use_batch_norm=True, dropout_probability=0.3)),
+                       [3], spline=_spl('rq', 'linear', 4, 3.0), extra={'akind': 'rq'}))
     return E
 
 
@@ -208,6 +248,12 @@ def perturb(t, regime, gen):
                     p.mul_(3.0).add_(2.0 * torch.randn(p.shape, generator=gen, dtype=p.dtype))
                 else:
                     p.add_(0.5 * torch.randn(p.shape, generator=gen, dtype=p.dtype))
+        if regime in ('normal', 'wide'):
+            # batch-norm layers inside conditioners: running statistics as after some training
+            for mod in t.modules():
+                if isinstance(mod, torch.nn.modules.batchnorm._BatchNorm) and mod.running_mean is not None:
+                    mod.running_mean.copy_(0.3 * torch.randn(mod.running_mean.shape, generator=gen).to(mod.running_mean.dtype))
+                    mod.running_var.copy_((0.5 + torch.rand(mod.running_var.shape, generator=gen)).to(mod.running_var.dtype))
     return t
 
 
